@@ -770,7 +770,49 @@ def r6_required(ctx):
             ctx.check(R, "headers:required-forwarded", sl.reads_field("required") and not sl.callees, "ApiEndpointHeader.required = struct_member.required", (h, b2))
 
 
-RULES = [("C07.R1", r1_type_parameter), ("C07.R2", r2_location), ("C07.R3", r3_content_type), ("C07.R4", r4_response),
+
+def r7_framework_errors_use_endpoint_error_type(ctx):
+    """Added after adversary change C07-B: the document describes an operation's 4xx/5xx with the
+    endpoint's declared error type, so every framework-generated HttpError on the endpoint's
+    handler path must be converted *through that type* before it becomes a HandlerError."""
+    R = ctx.rule("C07.R7", "on the endpoint path (HttpRouteHandler::handle_request and the HttpHandlerFunc impls) every conversion into HandlerError starts from the endpoint's declared "
+                 "error type (never directly from HttpError), and a failed response conversion goes through <ErrorType as From<HttpError>>::from first", floor=9)
+    import re as _re
+    roots = [f for f in ctx.ds.F.values() if _re.search(r"as handler::HttpHandlerFunc<.*>>::handle_request$|as handler::RouteHandler<Context>>::handle_request$", f.id)]
+    if len(roots) < 5:
+        ctx.lost(R, "HttpHandlerFunc / RouteHandler handle_request impls (%d found)" % len(roots))
+        return
+    generic_err = _re.compile(r"^ErrorType/#\d+$|HttpHandlerFunc::Error\)")
+    for root in roots:
+        fns = [root] + ctx.ds.descendants(root)
+        n_conv = 0
+        via_endpoint_type = False
+        for g in fns:
+            for bb, t in g.live_calls(r"convert::From::from$|ops::FromResidual::from_residual$|convert::Into::into$"):
+                ga = t.get("gargs", [])
+                if len(ga) < 2:
+                    continue
+                into_handler_error = ga[0] == "handler::HandlerError" or ga[0].endswith(", handler::HandlerError>")
+                if into_handler_error:
+                    n_conv += 1
+                    src = ga[1]
+                    m = _re.match(r"^std::result::Result<std::convert::Infallible, (.*)>$", src)
+                    if m:
+                        src = m.group(1)
+                    ok = bool(generic_err.search(src)) or src == "handler::HandlerError"
+                    ctx.check(R, "conversion-source:%s" % root.id.split(" as ")[-1].replace(">::handle_request", ""), ok,
+                              "HandlerError built from `%s` (%s)" % (src, "the endpoint's error type" if ok else "NOT the endpoint's declared error type: the response body would not match the documented error schema of a custom error type"), (g, bb))
+                if len(ga) >= 2 and generic_err.search(ga[0]) and ga[1] == "error::HttpError":
+                    via_endpoint_type = True
+        if "HttpHandlerFunc" in root.id:
+            sl_ok = False
+            for g in fns:
+                for bb, t in g.live_calls(r"HttpResponse::to_result$"):
+                    sl_ok = True
+            ctx.check(R, "to_result-error-via-endpoint-type:%s" % root.id.split(" as ")[-1].replace(">::handle_request", ""), via_endpoint_type and sl_ok and n_conv >= 1,
+                      "response.to_result() failure is converted with <ErrorType as From<HttpError>>::from before HandlerError::from: %s" % via_endpoint_type, root)
+
+RULES = [("C07.R7", r7_framework_errors_use_endpoint_error_type), ("C07.R1", r1_type_parameter), ("C07.R2", r2_location), ("C07.R3", r3_content_type), ("C07.R4", r4_response),
          ("C07.R5", r5_error_schema), ("C07.R6", r6_required)]
 
 A = "dropshot/src/api_description.rs"
